@@ -235,6 +235,23 @@ fn pairs(a: &[(u32, u32)]) -> Value {
 impl<const A: usize, const L: usize> MarketDyn for Market<A, L> {
     fn apply(&mut self, l: &Value) -> Value {
         let op = l["op"].as_str().unwrap_or("?");
+        if l["via"] == "book" {
+            // the same request made on the book the market hands out (`get_order_book_mut`): the market is a set of independent
+            // books, so this is the same operation on that asset
+            let a = get_usize(l, "a");
+            let b = self.get_order_book_mut(a);
+            return match op {
+                "create" | "cap" => {
+                    let (side, vol, tr, price) = (side_of(&l["side"]), get_u64(l, "vol") as u32, get_u64(l, "tr") as u32, opt_price(&l["price"]));
+                    let r = if op == "create" { b.create_order(side, vol, tr, price) } else { b.create_and_place_order(side, vol, tr, price) };
+                    match r { Ok(id) => json!(id), Err(_) => json!(-1) }
+                }
+                "place" => { b.place_order(get_usize(l, "id")); Value::Null }
+                "cancel" => { b.cancel_order(get_usize(l, "id")); Value::Null }
+                "modify" => { b.modify_order(get_usize(l, "id"), opt_price(&l["p"]), opt_u32(&l["v"])); Value::Null }
+                _ => panic!("harness: op {} cannot be made on a book of the market", op),
+            };
+        }
         match op {
             "create" | "cap" => {
                 let a = get_usize(l, "a");
